@@ -2,7 +2,10 @@
 (deadline enforcement).  spec/PlanRules.tla is the oracle; this module only
 
 * describes small planner *instances* (a task graph of <= 4 tasks in given states, 1-2
-  workers, 1-2 strategies, deadlines, a policy with its options),
+  workers, 1-3 strategies, deadlines, a policy with its options).  Capacities and demands are
+  numbers (one resource type) or vectors over the resource types RES_NAMES; inst["wsplit"]
+  lists a worker's capacity under several resource ids of the same name; inst["units"] hands
+  the times of the instance to the code in other EventTime units (same microsecond values),
 * builds the real objects (Task / TaskGraph / Workload / WorkerPools / scheduler), calls
   the real `schedule()` and projects the returned Placements into a decision record (T1),
 * captures the optimisation model built inside `schedule()` (gurobipy.Model.optimize and
@@ -36,6 +39,12 @@ STAT_NAMES = [
     "scheduled_task_replanned", "scheduled_task_moved", "batch_placed", "batch_members_with_different_deadlines",
     "later_invocation", "replanned_finishes_exactly_at_deadline",
     "later_invocation_hopeless_task", "later_invocation_deadline_exactly_tight", "later_invocation_finishes_exactly_at_deadline",
+    # second strengthening round: co-offered predecessors that cannot be placed, Clockwork queues over several invocations
+    "decided_parent_fits_no_worker", "decided_parent_hopeless", "unplaced_parent_with_placeable_child", "unplaced_parent_child_unplaced",
+    "placed_child_of_unplaced_parent", "join_one_parent_placed_one_not", "running_task_of_another_graph_holds_a_worker",
+    "two_resource_types", "waited_then_placed", "waited_then_cancelled", "batch_strategy_chosen_for_waiting_task",
+    "three_or_more_strategies", "cancelled_and_placed", "third_or_later_invocation",
+    "slower_strategy_chosen_at_later_invocation", "too_late_for_slowest_strategy_only",
 ]
 GUROBI_POLICIES = ("ILP", "ILP_RTG", "TSG")
 MODEL_POLICIES = GUROBI_POLICIES + ("Z3", "TSC")
@@ -93,19 +102,74 @@ def mk_inst(name, policy, tasks, workers, now=3, horizon=None, grid=1, enforce=T
     }
 
 
+RES_NAMES = ("r", "q", "p")  # resource type j of an instance <-> Resource(name=RES_NAMES[j])
+
+
+def vec(x):
+    """a capacity / demand as a vector over the resource types (a bare number = one resource type)"""
+    return [int(v) for v in x] if isinstance(x, (list, tuple)) else [int(x)]
+
+
+def n_res(inst):
+    return max([len(vec(c)) for c in inst["workers"]] + [len(vec(s["dem"])) for t in inst["tasks"] for s in t["strats"]])
+
+
+def vecn(x, n):
+    v = vec(x)
+    return v + [0] * (n - len(v))
+
+
+def fits(dem, cap):
+    n = max(len(vec(dem)), len(vec(cap)))
+    return all(a <= b for a, b in zip(vecn(dem, n), vecn(cap, n)))
+
+
+def tm(inst, kind, v):
+    """the EventTime of the microsecond value `v`.  inst["units"] = {kind: "MS" | "S"} gives the unit in which times of
+    that kind ("rt", "deadline", "release", "now", "cur", "grid") are handed to the code (same microsecond value)."""
+    u = (inst.get("units") or {}).get(kind, "US")
+    N = ns()
+    f = {"US": 1, "MS": 1000, "S": 1000000}[u]
+    if f > 1 and v >= 0 and v % f == 0:
+        return N.EventTime(int(v) // f, getattr(N.EventTime.Unit, u))
+    return us(v)
+
+
+def scale_times(inst, f):
+    """every time of the instance multiplied by f (the same instance on a coarser clock)"""
+    for k in ("now", "horizon"):
+        inst[k] *= f
+    if inst["policy"] in ("TSG", "TSC"):
+        inst["grid"] *= f  # the discretisation is an option of TetriSched only; the others decide in microseconds
+    for k in ("lookahead", "plan_ahead"):
+        if inst["opts"][k] > 0:
+            inst["opts"][k] *= f
+    for t in inst["tasks"]:
+        t["deadline"] *= f
+        if t["release"] > 0:
+            t["release"] *= f
+        if t["fin"] > 0:
+            t["fin"] *= f
+        t["cur"]["s"] *= f
+        for s in t["strats"]:
+            s["rt"] *= f
+    return inst
+
+
 def spec_inst(inst):
     """the part of an instance the specification knows about"""
     profs = {}
     tasks = []
+    nr = n_res(inst)
     for t in inst["tasks"]:
         d = {k: t[k] for k in SPEC_TASK_FIELDS}
-        d["strats"] = [{"dem": s["dem"], "rt": s["rt"], "bs": s.get("bs", 1)} for s in t["strats"]]
+        d["strats"] = [{"dem": vecn(s["dem"], nr), "rt": s["rt"], "bs": s.get("bs", 1)} for s in t["strats"]]
         # prof: 0 = a profile of its own; tasks with the same positive number share a work profile (batching)
         d["prof"] = profs.setdefault(t["prof"], len(profs) + 1) if t.get("prof") else 0
         tasks.append(d)
     return {
         "policy": inst["policy"], "enforce": bool(inst["enforce"]), "now": inst["now"], "grid": inst["grid"],
-        "horizon": inst["horizon"], "workers": inst["workers"], "step": inst.get("step", 1),
+        "horizon": inst["horizon"], "workers": [vecn(c, nr) for c in inst["workers"]], "step": inst.get("step", 1),
         "batching": bool(inst.get("opts", {}).get("batching", False)), "tasks": tasks,
     }
 
@@ -122,10 +186,30 @@ class World:
         self.inst = inst
         self.N = N
         self.res = N.Resource(name="r", _id="any")
-        self.workers = [
-            N.Worker(name=f"W{i + 1}", resources=N.Resources(resource_vector={N.Resource(name="r"): cap}))
-            for i, cap in enumerate(inst["workers"])
-        ]
+        nr = n_res(inst)
+        split = inst.get("wsplit")  # None | "ones" | "uneven": a capacity listed as several resource ids of the same name
+
+        def worker_vector(i, cap):
+            rv = {}
+            for j, c in enumerate(vecn(cap, nr)):
+                if c == 0 and nr > 1:
+                    continue  # the worker does not have this resource type at all
+                parts = [c]
+                if split == "ones" and c > 1:
+                    parts = [1] * c
+                elif split == "uneven" and c > 1:
+                    parts = [c - 1, 1]
+                if len(parts) == 1:
+                    rv[N.Resource(name=RES_NAMES[j])] = c
+                else:
+                    for g, q in enumerate(parts):
+                        rv[N.Resource(name=RES_NAMES[j], _id=f"{RES_NAMES[j]}{i + 1}g{g}")] = q
+            return N.Resources(resource_vector=rv)
+
+        def demand(dem):
+            return N.Resources(resource_vector={N.Resource(name=RES_NAMES[j], _id="any"): q for j, q in enumerate(vec(dem)) if q > 0})
+
+        self.workers = [N.Worker(name=f"W{i + 1}", resources=worker_vector(i, cap)) for i, cap in enumerate(inst["workers"])]
         self.pool = N.WorkerPool(name="P", workers=self.workers)
         self.pools = N.WorkerPools([self.pool])
         self.widx = {w.id: i + 1 for i, w in enumerate(self.workers)}
@@ -134,15 +218,13 @@ class World:
         for ti, t in enumerate(inst["tasks"]):
             if t.get("prof") and t["prof"] in shared:
                 prof, sts = shared[t["prof"]]  # tasks of one work profile: the same WorkProfile / strategy objects
-                if [(s["dem"], s["rt"], s.get("bs", 1)) for s in t["strats"]] != [
-                    (s["dem"], s["rt"], s.get("bs", 1)) for s in inst["tasks"][self.profiles.index(prof)]["strats"]
+                if [(vec(s["dem"]), s["rt"], s.get("bs", 1)) for s in t["strats"]] != [
+                    (vec(s["dem"]), s["rt"], s.get("bs", 1)) for s in inst["tasks"][self.profiles.index(prof)]["strats"]
                 ]:
                     raise tlc.TLCMachineryError(f"{inst['name']}: tasks of profile {t['prof']} with different strategies")
             else:
                 sts = [
-                    N.ExecutionStrategy(
-                        resources=N.Resources(resource_vector={self.res: s["dem"]}), batch_size=s.get("bs", 1), runtime=us(s["rt"])
-                    )
+                    N.ExecutionStrategy(resources=demand(s["dem"]), batch_size=s.get("bs", 1), runtime=tm(inst, "rt", s["rt"]))
                     for s in t["strats"]
                 ]
                 loading = [N.ExecutionStrategy(resources=N.Resources(), batch_size=1, runtime=us(0))]
@@ -155,8 +237,8 @@ class World:
             graph = t.get("graph", "G")
             task = N.Task(
                 name=f"T{ti + 1}", task_graph=graph, job=N.Job(name=f"T{ti + 1}", profile=prof), profile=prof,
-                deadline=us(t["deadline"]), timestamp=0,
-                release_time=us(t["release"]) if t["state"] != "VIRT" else N.EventTime.invalid(),
+                deadline=tm(inst, "deadline", t["deadline"]), timestamp=0,
+                release_time=tm(inst, "release", t["release"]) if t["state"] != "VIRT" else N.EventTime.invalid(),
             )
             self.tasks.append(task)
             self.strats.append(sts)
@@ -175,14 +257,14 @@ class World:
             task, st = self.tasks[ti], t["state"]
             if st == "VIRT":
                 continue
-            task.release(us(t["release"]))
+            task.release(tm(inst, "release", t["release"]))
             if st == "REL":
                 continue
             cur = t["cur"]
             strat = self.strats[ti][cur["k"] - 1]
             worker = self.workers[cur["w"] - 1]
             pl = N.Placement.create_task_placement(
-                task=task, placement_time=us(cur["s"]), worker_pool_id=self.pool.id, worker_id=worker.id,
+                task=task, placement_time=tm(inst, "cur", cur["s"]), worker_pool_id=self.pool.id, worker_id=worker.id,
                 execution_strategy=strat,
             )
             task.schedule(us(min(cur["s"], now)), pl)
@@ -196,14 +278,14 @@ class World:
                     task.step(us(cur["s"]), us(now - cur["s"]))
             elif st == "DONE":
                 task.start(us(cur["s"]))
-                task.step(us(cur["s"]), us(strat.runtime.time))
+                task.step(us(cur["s"]), us(strat.runtime.to(N.EventTime.Unit.US).time))
                 task.finish(us(t["fin"]))
 
         self.clock = now
 
     # -- multi-invocation scenarios: what the Simulator does between two scheduler invocations ----------
     def release(self, ti, time):
-        self.tasks[ti].release(us(time))
+        self.tasks[ti].release(tm(self.inst, "release", time))
 
     def apply(self, placements, now):
         """SCHEDULER_FINISHED (simulator.py __handle_scheduler_finish, drop_skipped_tasks off): a CANCEL_TASK placement
@@ -303,7 +385,7 @@ def build_scheduler(inst, world):
 
     o, pol = inst["opts"], inst["policy"]
     zero = N.EventTime.zero()
-    la = us(o["lookahead"])
+    la = tm(inst, "grid", o["lookahead"])
     lim = N.EventTime(20, N.EventTime.Unit.S)
     if pol in ("ILP", "ILP_RTG"):
         return schedulers.ILPScheduler(
@@ -314,14 +396,14 @@ def build_scheduler(inst, world):
     if pol == "TSG":
         return schedulers.TetriSchedGurobiScheduler(
             runtime=zero, lookahead=la, enforce_deadlines=inst["enforce"], retract_schedules=o["retract"],
-            release_taskgraphs=o["rtg"], time_limit=lim, time_discretization=us(inst["grid"]),
-            plan_ahead=us(o["plan_ahead"]) if o["plan_ahead"] >= 0 else N.EventTime.invalid(),
+            release_taskgraphs=o["rtg"], time_limit=lim, time_discretization=tm(inst, "grid", inst["grid"]),
+            plan_ahead=tm(inst, "grid", o["plan_ahead"]) if o["plan_ahead"] >= 0 else N.EventTime.invalid(),
         )
     if pol == "TSC":
         return schedulers.TetriSchedCPLEXScheduler(
             runtime=zero, lookahead=la, enforce_deadlines=inst["enforce"], retract_schedules=o["retract"],
-            time_limit=lim, time_discretization=us(inst["grid"]), batching=bool(o.get("batching", False)),
-            plan_ahead=us(o["plan_ahead"]) if o["plan_ahead"] >= 0 else N.EventTime(-1, N.EventTime.Unit.US),
+            time_limit=lim, time_discretization=tm(inst, "grid", inst["grid"]), batching=bool(o.get("batching", False)),
+            plan_ahead=tm(inst, "grid", o["plan_ahead"]) if o["plan_ahead"] >= 0 else N.EventTime(-1, N.EventTime.Unit.US),
         )
     if pol == "Z3":
         from schedulers.z3_scheduler import Z3Scheduler
@@ -353,7 +435,7 @@ def build_scheduler(inst, world):
 def offered_tasks(inst, world, sched):
     """what the policy's own get_schedulable_tasks call returns on this state"""
     pol = inst["policy"]
-    now = us(inst["now"])
+    now = tm(inst, "now", inst["now"])
     if pol in ("EDF", "FIFO"):
         res = world.workload.get_schedulable_tasks(time=now, preemption=False, worker_pools=world.pools)
     else:
@@ -527,12 +609,12 @@ def call_policy(inst, world, sched):
         if t["state"] in ("RUN", "SCHED", "DONE"):
             t["fin"] = world.expected_finish(ti)
     handle = {"world": world, "sched": sched, "model": None, "kind": None, "placements": []}
-    dec = [{"kind": "none", "w": 0, "s": 0, "k": 0} for _ in inst["tasks"]]
+    dec = [{"kind": "none", "w": 0, "s": 0, "k": 0, "c": False} for _ in inst["tasks"]]
     out = io.StringIO()
     with Capture(cplex=(pol == "TSC"), batching=batching) as cap:
         try:
             with contextlib.redirect_stdout(out):
-                placements = sched.schedule(us(inst["now"]), world.workload, world.pools)
+                placements = sched.schedule(tm(inst, "now", inst["now"]), world.workload, world.pools)
         except Exception as ex:  # a crash is C10's business; here the call has no answer
             info["raised"] = f"{type(ex).__name__}: {ex}"[:300]
             placements = []
@@ -560,7 +642,7 @@ def call_policy(inst, world, sched):
             info.setdefault("foreign", []).append(pl.task.unique_name)
             continue
         if pl.placement_type == PT.CANCEL_TASK:
-            d = {"kind": "cancel", "w": 0, "s": 0, "k": 0}
+            d = {"kind": "cancel", "w": 0, "s": 0, "k": 0, "c": True}
         elif pl.is_placed():
             d = {
                 "kind": "place",
@@ -574,9 +656,18 @@ def call_policy(inst, world, sched):
                     d["w"] = 1
         else:
             d = {"kind": "unplaced", "w": 0, "s": 0, "k": 0}
+        d.setdefault("c", False)
         if dec[ti - 1]["kind"] != "none":
+            # more than one Placement for the task in one answer: a placement wins over the rest, a cancellation is
+            # remembered in `c` (the specification says what an answer that both cancels and places a task is)
             info.setdefault("duplicate", []).append(ti)
-            if dec[ti - 1]["kind"] == "place":
+            old = dec[ti - 1]
+            if old["kind"] == "place":
+                old["c"] = old["c"] or d["kind"] == "cancel"
+                continue
+            if d["kind"] == "place":
+                d["c"] = old["kind"] == "cancel"
+            elif old["kind"] == "cancel":
                 continue
         dec[ti - 1] = d
     if pol in ("ILP", "ILP_RTG"):
@@ -1148,11 +1239,11 @@ def dec_of_compact(inst, d):
     out = []
     for (p, w, s, k) in d:
         if p == 1:
-            out.append({"kind": "place", "w": w, "s": s, "k": k})
+            out.append({"kind": "place", "w": w, "s": s, "k": k, "c": False})
         elif p == 0:
-            out.append({"kind": "unplaced", "w": 0, "s": 0, "k": 0})
+            out.append({"kind": "unplaced", "w": 0, "s": 0, "k": 0, "c": False})
         else:
-            out.append({"kind": "none", "w": 0, "s": 0, "k": 0})
+            out.append({"kind": "none", "w": 0, "s": 0, "k": 0, "c": False})
     return out
 
 
@@ -1184,7 +1275,8 @@ def judge_records(recs, timeout=900):
     with Scratch() as scratch:
         path = os.path.join(scratch, "records.json")
         with open(path, "w") as f:
-            json.dump([{"id": r["id"], "src": r["src"], "inst": spec_inst(r["inst"]), "dec": r["dec"]} for r in recs], f)
+            json.dump([{"id": r["id"], "src": r["src"], "inst": spec_inst(r["inst"]),
+                        "dec": [dict(d, c=bool(d.get("c", d["kind"] == "cancel"))) for d in r["dec"]]} for r in recs], f)
         mod, cf = mcgen.write_mc(
             scratch, "PlanRules", _constants(records=f'JsonDeserialize("{path}")', nrecords=len(recs)), name="MC_PlanRec",
             init_next=("RecInit", "NoNext"), invariants=["RecChecked"], extra_defs=REG_INIT, postcondition="Post",
@@ -1273,7 +1365,7 @@ def options_product(inst):
             continue
         lo = max(inst["now"] + lb, t["release"])
         starts = len([s for s in range(lo, inst["horizon"] + 1) if (s - inst["now"]) % inst["grid"] == 0])
-        ws = len([c for c in inst["workers"] if any(s["dem"] <= c for s in t["strats"])])
+        ws = len([c for c in inst["workers"] if any(fits(s["dem"], c) for s in t["strats"])])
         n *= 1 + starts * ws * len(t["strats"])
     return n
 
@@ -1385,6 +1477,7 @@ def run_chunk(tag, insts, rule, cfg):
     if elig and cfg.get("plan_cap", 0) > 0:
         plans, tr = enumerate_plans([real[i][0] for i in elig], rule, timeout=cfg.get("tlc_timeout", 600), agree=cfg.get("agree", False))
         out["tlc"] = {"distinct": tr.distinct, "generated": tr.generated, "wall_s": round(tr.wall_s, 2)}
+        out["timing"]["r_tlc_s"] = round(tr.wall_s, 2)
         rnd = random.Random(f"{cfg.get('seed', 0)}:{tag}")
         for pos, i in enumerate(elig):
             inst2, v = real[i][0], views[i]
@@ -1423,6 +1516,9 @@ def compact_inst(inst, dec=None):
     d = {
         "policy": inst["policy"], "options": dict(inst["opts"], enforce_deadlines=inst["enforce"], time_discretization=inst["grid"]),
         "now": inst["now"], "horizon": inst["horizon"], "worker_capacities": inst["workers"],
+        **({"resource_types": list(RES_NAMES[:n_res(inst)])} if n_res(inst) > 1 else {}),
+        **({"capacities_listed_as_several_resource_ids": inst["wsplit"]} if inst.get("wsplit") else {}),
+        **({"units_handed_to_the_code": inst["units"]} if inst.get("units") else {}),
         "tasks": [
             {
                 "task": f"T{i + 1}", "state": t["state"], "release": t["release"], "deadline": t["deadline"],
@@ -1441,7 +1537,8 @@ def compact_inst(inst, dec=None):
         d["invocation_times"] = inst["steps"]
     if dec is not None:
         d["decisions"] = [
-            {"task": f"T{i + 1}", **({"kind": e["kind"], "worker": e["w"], "start": e["s"], "strategy": e["k"]} if e["kind"] == "place" else {"kind": e["kind"]})}
+            {"task": f"T{i + 1}", **({"kind": e["kind"], "worker": e["w"], "start": e["s"], "strategy": e["k"]} if e["kind"] == "place" else {"kind": e["kind"]}),
+             **({"also_cancelled": True} if e["kind"] == "place" and e.get("c") else {})}
             for i, e in enumerate(dec)
         ]
     return d
